@@ -65,7 +65,19 @@ func genC04(t *rapid.T) c04Case {
 		u := c.Users[rapid.IntRange(0, len(c.Users)-1).Draw(t, "u")]
 		p := c04Probe{User: u.Name, PW: u.PW, Kind: "right", Frontend: rapid.SampledFrom(c04Frontends).Draw(t, "frontend"),
 			Realm: rapid.SampledFrom([]string{"", "@example.org", "@a@b", "@"}).Draw(t, "realm")}
-		switch rapid.IntRange(0, 9).Draw(t, "variant") {
+		switch rapid.IntRange(0, 11).Draw(t, "variant") {
+		case 10, 11:
+			// the user name with one control / blank byte added: another (invalid) name, whatever a frontend would like to strip
+			ctl := rapid.SampledFrom([]string{"\x00", "\n", "\r", "\x7f", "\xc2\x85", "\t", " ", "\x1b", "\u200b"}).Draw(t, "ctl")
+			switch rapid.IntRange(0, 2).Draw(t, "ctlpos") {
+			case 0:
+				p.User = u.Name + ctl
+			case 1:
+				p.User = ctl + u.Name
+			default:
+				p.User = u.Name[:len(u.Name)/2] + ctl + u.Name[len(u.Name)/2:]
+			}
+			p.Kind = "user-with-control-byte"
 		case 0:
 			p.PW, p.Kind = u.PW+" ", "trailing-space"
 		case 1:
@@ -164,6 +176,7 @@ func runC04(c c04Case) string {
 			vlib.Class("probe:nontrivial")
 		}
 		vlib.Class("frontend:" + fe)
+		vlib.Class("probe-kind:" + p.Kind)
 		vlib.Class(fmt.Sprintf("expected:%v", want))
 		if p.Kind == "internal-error-user" && c.Broken != "" {
 			vlib.Class("probe:internal-error-must-deny")
